@@ -735,7 +735,7 @@ theorem resolveTranss_ext {names : List String} {home : Nat} (hh : home < names.
 
 /-- resolved frame `f'` (index `home`) is what resolve makes of `f` -/
 def FrameOf (names : List String) (home : Nat) (f : FrameSrc) (f' : Frame) : Prop :=
-  f'.name = f.name ∧ f'.guards = f.guards ∧ f'.enter = f.enter ∧ f'.recur = f.recur ∧ f'.exit = f.exit ∧
+  f'.name = f.name ∧ resolveOver names f.over = .ok f'.over ∧ f'.guards = f.guards ∧ f'.enter = f.enter ∧ f'.recur = f.recur ∧ f'.exit = f.exit ∧
   All2 (TransOf names home) f.trans f'.trans
 
 theorem resolveFrames_ext {names : List String} :
@@ -762,6 +762,10 @@ theorem resolveFrames_ext {names : List String} :
     | ok r1 =>
       obtain ⟨ts, pl1⟩ := r1
       simp only [h1] at h
+      cases hov : resolveOver names f.over with
+      | error e => simp [hov] at h
+      | ok ov =>
+      simp only [hov] at h
       cases h2 : resolveFrames names (j + 1) pl1 fs with
       | error e => simp [h2] at h
       | ok r2 =>
@@ -794,7 +798,7 @@ theorem resolveFrames_ext {names : List String} :
           | zero =>
             simp only [List.getElem?_cons_zero, Option.some.injEq] at hg hg'
             subst hg; subst hg'
-            exact ⟨rfl, rfl, rfl, rfl, rfl, by simpa using o1⟩
+            exact ⟨rfl, hov, rfl, rfl, rfl, rfl, by simpa using o1⟩
           | succ k =>
             simp only [List.getElem?_cons_succ] at hg hg'
             have := o2 k g g' hg hg'
